@@ -30,7 +30,7 @@ MEM_A, MEM_B = 48 * 2**20, 3000
 FAULTS = [
     "none", "truncate", "truncate_boundary", "flip_bit", "set_byte", "add_byte", "int_field", "u32_field", "delete_range", "dup_range",
     "swap_ranges", "zero_fill", "splice_same", "splice_other", "append_garbage", "empty", "whitespace", "random_bytes", "token_soup",
-    "side_missing", "side_truncated", "side_swapped", "stream_eio", "stream_eof", "stream_closed", "multi_flip",
+    "side_missing", "side_truncated", "side_swapped", "stream_eio", "stream_eof", "stream_closed", "multi_flip", "len_field", "many_lines_one_long",
 ]
 SOUP = {
     "stl": [b"solid", b"facet normal 0 0 1", b"outer loop", b"vertex 0 0 0", b"endloop", b"endfacet", b"endsolid", b"\n", b" 1e309 ", b"nan"],
@@ -108,6 +108,25 @@ def apply_fault(data, f, other=b""):
         old = int.from_bytes(b[pos : pos + 4], "little")
         new = {"x10": old * 10 + 7, "x1000": old * 1000, "two32": 0xFFFFFFFF, "two31": 0x7FFFFFFF, "neg": 0xFFFFFFFE, "zero": 0, "one_more": old + 1, "one_less": max(old - 1, 0), "huge": 0xFFFFFF00}[f.get("val", "x10")] % (2**32)
         b[pos : pos + 4] = new.to_bytes(4, "little")
+    elif k == "len_field":
+        offs = length_fields(data, f.get("ft", ""))
+        if not offs:
+            # no binary length field known for this format: fall back to the first 32-bit words
+            offs = [4 * i for i in range(min(n, 96) // 4)]
+        if not offs:
+            return data
+        pos = offs[f.get("j", 0) % len(offs)]
+        old = int.from_bytes(b[pos : pos + 4], "little")
+        new = {
+            "x10": old * 10 + 7, "x1000": old * 1000, "two32": 0xFFFFFFFF, "two31": 0x7FFFFFFF, "neg": 0xFFFFFFFE, "zero": 0, "one_more": old + 1,
+            "one_less": max(old - 1, 0), "huge": 0xFFFFFF00, "bit31": old | 0x80000000, "bit30": old | 0x40000000, "bit28": old | 0x10000000, "top7f": (old & 0x00FFFFFF) | 0x7F000000, "bit24": old | 0x01000000,
+        }[f.get("lval", "bit31")] % (2**32)
+        b[pos : pos + 4] = new.to_bytes(4, "little")
+    elif k == "many_lines_one_long":
+        r = _random.Random(f["salt"])
+        lines, longest = r.choice([(2000, 2000), (8000, 8000), (8000, 100), (100, 8000)])
+        tok = r.choice([b"0", b"v 0 0 0", b"10", b"0 0 0", b"LINE", b" "])
+        return bytes(b) + b"\n" + (tok + b"\n") * lines + r.choice([b"A", b"9", b" ", b"0 "]) * longest + b"\n"
     elif k == "delete_range":
         a, c = _ranges(n, f["a"], f["b"])
         del b[a:c]
@@ -130,6 +149,32 @@ def apply_fault(data, f, other=b""):
     elif k == "append_garbage":
         return bytes(b) + bytes(np.random.RandomState(f["salt"] % (2**32)).randint(0, 256, 1 + f.get("n", 16) % 300, dtype=np.uint8).tolist())
     return bytes(b)
+
+
+def length_fields(data, ft):
+    """Offsets of 4-byte little-endian length / count / offset fields, found from the structure of the valid payload."""
+    n = len(data)
+    out = []
+    if data[:4] == b"glTF" and n >= 20:
+        out += [8, 12]
+        jl = int.from_bytes(data[12:16], "little")
+        if 20 + jl + 8 <= n:
+            out += [20 + jl, 20 + jl + 4]
+    if ft == "stl" and n >= 84:
+        out += [80]
+    # zip containers (zip, 3mf): sizes in local headers, central directory and end record
+    i = data.find(b"PK\x03\x04")
+    while 0 <= i < n - 30 and len(out) < 40:
+        out += [i + 18, i + 22]
+        i = data.find(b"PK\x03\x04", i + 4)
+    i = data.find(b"PK\x01\x02")
+    while 0 <= i < n - 46 and len(out) < 60:
+        out += [i + 20, i + 24, i + 42]
+        i = data.find(b"PK\x01\x02", i + 4)
+    i = data.rfind(b"PK\x05\x06")
+    if 0 <= i <= n - 22:
+        out += [i + 12, i + 16]
+    return [o for o in out if o + 4 <= n]
 
 
 def boundaries(data, ft):
@@ -168,7 +213,7 @@ class C20(World):
         "and leave the process able to load a valid file. The worker that dies is attributed to its journalled run."
     )
     LEVEL_NOTE = (
-        "Step counting sees Python lines only (loops inside C extensions are bounded by the block wall-clock watchdog); memory is tracemalloc peak (numpy buffers included, "
+        "Step counting sees Python lines only (charset_normalizer, a chunk-sampling detector called by decode_text, is excluded for speed) (loops inside C extensions are bounded by the block wall-clock watchdog); memory is tracemalloc peak (numpy buffers included, "
         "private C allocations of lxml/zlib not). Third-party loaders (meshio, cascadio, openctm) are out of scope. Budgets: steps <= 150000 + 300*len, peak <= 48 MiB + 3000*len."
     )
     COMPONENTS = {
@@ -188,7 +233,7 @@ class C20(World):
             import trimesh
 
             prefixes = [os.path.dirname(trimesh.__file__)] + list(site.getsitepackages()) + [os.path.dirname(os.__file__)]
-            C20._mon = monitor.Monitor(prefixes)
+            C20._mon = monitor.Monitor(prefixes, exclude=("/charset_normalizer/",))
         if not C20._warm:
             C20._warm = True
             self._warmup()
@@ -237,12 +282,19 @@ class C20(World):
         f["n"] = rng.randrange(4096)
         if kind == "truncate_boundary":
             f["bidx"] = rng.randrange(64)
+        if kind == "len_field":
+            f["lval"] = rng.choice(["x10", "x1000", "two32", "two31", "neg", "zero", "one_more", "one_less", "huge", "bit31", "bit31", "bit30", "bit28", "top7f", "top7f", "bit24"])
         if kind.startswith("stream_"):
             f["n"] = rng.choice([1, 1, 2, 3, 5, 9])
         return f
 
     def generate(self, rng, cfg):
-        ops = [{"op": "payload", "geom": fw.random_geometry_recipe(rng, cfg["kind"]), "other": fw.random_geometry_recipe(rng, cfg["kind"]), "rs": rng.randrange(2**31)}]
+        geom, other = fw.random_geometry_recipe(rng, cfg["kind"]), fw.random_geometry_recipe(rng, cfg["kind"])
+        for g in (geom, other):
+            if str(g.get("shape", "")).startswith("large"):
+                # the 67 600-vertex meshes are C08's business; here every fault needs many cheap attempts
+                g["shape"], g["mesh"]["base"] = "normal", "icosa1"
+        ops = [{"op": "payload", "geom": geom, "other": other, "rs": rng.randrange(2**31)}]
         for _ in range(cfg["n_attempts"]):
             kind = pick(rng, cfg["weights"])
             ops.append({"op": "attempt", "fault": self._gen_fault(rng, kind, cfg["fmt"]), "route": rng.choice(cfg["routes"]), "transport": rng.choice(["bytesio", "simfile", "path"]), "rs": rng.randrange(2**31)})
@@ -306,6 +358,8 @@ class C20(World):
         main = st["main"]
         k = f["kind"]
         data = files[main]
+        if k == "len_field":
+            f = dict(f, ft=st["ft"])
         if k == "truncate_boundary":
             bs = boundaries(data, st["ft"])
             f = dict(f, at=bs[f.get("bidx", 0) % len(bs)])
